@@ -3,3 +3,4 @@ import Driver.Smt
 import Driver.Fk
 import Driver.ModelMode
 import Driver.FramesMode
+import Driver.RatMode
